@@ -55,5 +55,9 @@ def symbCells (A B : Relax.Pat) (m : Nat) (jp : Array Nat) (jc : Nat → Array N
 def segZeroStores {α : Type} (n : Nat) (ptr : Nat → Nat) (z : α) : List (Nat × α) :=
   (List.range n).flatMap fun i => (List.range' (ptr i) (ptr (i + 1) - ptr i)).map fun j => (j, z)
 
+/-- `for i < n: for j in [ptr[i], ptr[i+1]): a[j] = f j` (mpi `spectral_radius`: `rem_col[j] = C.local_index(A_rem.col[j])`) -/
+def segStores {α : Type} (n : Nat) (ptr : Nat → Nat) (f : Nat → α) : List (Nat × α) :=
+  (List.range n).flatMap fun i => (List.range' (ptr i) (ptr (i + 1) - ptr i)).map fun j => (j, f j)
+
 end Defined
 end Amgcl
